@@ -194,6 +194,12 @@ def shard(ctx, payload):
                 for s in forms:
                     for prec in range(6):
                         args.append((s, prec))
+            # the third argument (how many decimals count at all), given explicitly - 0 included
+            for f in fr[::7]:
+                s_ = ipart + '.' + f
+                for prec in (0, 1, 2, 3):
+                    for maxdp in (0, 1, 2, 3, 5, 6, 8):
+                        args.append((s_, prec, maxdp))
             run_batch('round', args, lambda a: a[0].startswith('.') or a[0].startswith('0') or '9' in a[0])
         elif what == 'format':
             from checks.c06 import residue_floats
